@@ -245,7 +245,7 @@ fn report_failure(args: &Args, rep: &mut Report, ast: &OpeningHoursExpression, h
 }
 
 pub fn run(args: &Args, rep: &mut Report) {
-    let n = args.cases(30_000, 400_000);
+    let n = args.cases(120_000, 1_200_000);
     let mut cache = HashMap::new();
     let mut st = MapStats::default();
     for k in 0..n {
